@@ -575,6 +575,7 @@ pub struct Violation {
 
 fn run_case(f: RandomFn, choices: &[u32], obs: &mut Obs) -> Res {
     crate::oracle::reset();
+    crate::regexo::take_gave_up();
     let mut src = Src::new(choices);
     let r = guarded(|| f(&mut src, obs));
     if src.used() > choices.len() {
@@ -583,7 +584,10 @@ fn run_case(f: RandomFn, choices: &[u32], obs: &mut Obs) -> Res {
     }
     // a reference evaluation of this case ran out of its step budget: whatever was derived from it is
     // unreliable, the case gives no verdict
-    if crate::oracle::take_gave_up() {
+    // (the reference matcher of regular expressions has a budget of its own: a pattern such as `((.||)*)*a` on a
+    // string of 64 characters exhausts it, and the answer it then gave is meaningless)
+    let matcher_gave_up = crate::regexo::take_gave_up();
+    if crate::oracle::take_gave_up() || matcher_gave_up {
         obs.label("reference-step-budget-exceeded(case discarded)");
         return Ok(());
     }
